@@ -104,7 +104,7 @@ Print Assumptions C18_cancel_lost_refuted.
    timer with the old entry ignored; a regular timeout is delivered exactly at the deadline *)
 Example C18_nonvacuous_repairs :
   (match runp true true true w1_fixed with Some s => apc (A s 0) = RBack /\ flag s 1 = true | None => False end) /\
-  (match runp true true true (firstn 26 w2) with
+  (match runp true true true (firstn 27 w2) with
    | Some s => tev (T s 0) = None /\ tmr s 1 = Some 1 /\ Sel s 1 = SIdle /\ apara (A s 1) = false /\ co s 1 = Some 1
    | None => False end) /\
   (match runp true true true
@@ -112,4 +112,18 @@ Example C18_nonvacuous_repairs :
             Tick 5; SelFire 1 0; SelMark 1; SelHnd 1; Resume 0; Step 0 0; Step 0 0; Step 0 0] with
    | Some s => alast (A s 0) = Some RTimedOut /\ now s = 5 /\ atcall (A s 0) = 0 /\ tmr s 1 = None /\ busy s 1 = None
    | None => False end).
+Proof. vm_compute. repeat split. Qed.
+
+(* the canceller takes the coroutine and nulls the timer entry in two accesses: the selector's timeout handler can read
+   `event_data` of the due entry in between; it then leaves its mark, finds the slot empty and delivers nothing - the
+   cancelled caller ends with Canceled, never with TimedOut *)
+Example C18_nonvacuous_handler_between_cancel_take_and_null :
+  match runp true true true
+          [Start 0 1 Rd true (Some 5) [] 4; Step 0 0; Step 0 0; Step 0 0; Sub 0 false; Sub 0 false; Sub 0 false; Sub 0 false; Sub 0 false;
+           CancelSet 0; CancelIo 0; CancelTake 0;
+           Tick 5; SelFire 1 0; SelMark 1; SelHnd 1;
+           CancelNull 0; Resume 0; Step 0 0] with
+  | Some s => alast (A s 0) = Some RCanceled /\ apara (A s 0) = false /\ flag s 1 = true /\ tmr s 1 = None /\
+              Sel s 1 = SIdle /\ Cn s 0 = CnIdle /\ busy s 1 = None
+  | None => False end.
 Proof. vm_compute. repeat split. Qed.
